@@ -343,6 +343,10 @@ func (w *Writer) WriteCSM(csm io.ColumnSeriesMap, isVariableLength bool) error {
 			}
 		}
 
+		// The columns were matched to the bucket's by name: serialise them in the bucket's order.
+		if err = cs.Project(io.GetNamesFromDSV(dbDSV)); err != nil {
+			return fmt.Errorf("order columns by bucket schema. tbk=%s: %w", tbk, err)
+		}
 		rs, err := cs.ToRowSeries(tbk, alignData)
 		if err != nil {
 			return fmt.Errorf("convert column series to row series. tbk=%s: %w", tbk, err)
